@@ -41,7 +41,7 @@ class MessageContent(Writeable):
                  body: MessageBody) -> None:
         super().__init__()
         self._raw = get_raw(memoryview(data), header._lines, body._lines)
-        self.lines: Final = header.lines + body.lines - 1
+        self.lines: Final = max(0, header.lines + body.lines - 1)
         self.header: Final = header
         self.body: Final = body
 
